@@ -58,6 +58,9 @@ def cases(draw, tier):
         text = R.text(m)
         if draw(st.integers(0, 3)) == 0:
             text += '// café 日本\n'
+        if draw(st.integers(0, 3)) == 0:
+            # non-ASCII text that reaches the generated files
+            text += 'void zuerich(string where = "Zürich 日本");\n'
         paths = PC.ns_paths(m)
         top = list(draw(st.sampled_from(paths))) if paths and draw(st.booleans()) else []
         jobs.append({
